@@ -116,7 +116,7 @@ def tlc_raw(module, cfg, metadir, workers=1, xmx="3g", timeout=3000, env=None, e
     gc = ["-XX:+UseSerialGC", "-XX:TieredStopAtLevel=1"] if light else ["-XX:+UseParallelGC", "-XX:ParallelGCThreads=4"]
     cmd = ["java"] + gc + ["-Xmx" + xmx, "-cp", TLA_CP, "tlc2.TLC",
            "-workers", str(workers), "-metadir", metadir, "-cleanup", "-noGenerateSpecTE",
-           "-config", os.path.join(SPEC, cfg), os.path.join(SPEC, module)] + (extra or [])
+           "-config", cfg if os.path.isabs(cfg) else os.path.join(SPEC, cfg), os.path.join(SPEC, module)] + (extra or [])
     p = sh(cmd, timeout=timeout, env=e, cwd=SPEC, check=False)
     shutil.rmtree(metadir, ignore_errors=True)
     return p.returncode, p.stdout
@@ -156,22 +156,34 @@ def run_monitor(trace, tag):
     return {"verdicts": verdicts, "counters": counters, "states": states, "transitions": max(gen - 1, 0)}
 
 
-def run_model(name, workers=None, timeout=3000, xmx="8g", env=None):
-    """Bounded model MC_<name>.tla/.cfg. Returns states, transitions, REPLAY objects, ok flag."""
-    rc, text = tlc_raw("MC_%s.tla" % name, "MC_%s.cfg" % name, os.path.join(OUT, "meta", "mc_" + name),
-                       workers=workers or min(NPROC, 12), xmx=xmx, timeout=timeout, env=env,
-                       extra=["-coverage", "1"])
+def run_model(name, constants=None, invariants=None, workers=None, timeout=3000, xmx="8g", env=None, tag=None, spec="Spec"):
+    """Bounded model MC_<name>.tla with a generated configuration. Returns states, transitions,
+    JSON objects printed by the model (REPLAY lines), violated invariants, per-action coverage."""
+    tag = tag or name
+    os.makedirs(os.path.join(OUT, "meta"), exist_ok=True)
+    cfgp = os.path.join(OUT, "meta", "MC_%s.cfg" % tag)
+    with open(cfgp, "w") as f:
+        f.write("SPECIFICATION %s\n" % spec)
+        if constants:
+            f.write("CONSTANTS\n" + "".join("  %s = %s\n" % (k, v) for k, v in constants.items()))
+        if invariants:
+            f.write("INVARIANTS " + " ".join(invariants) + "\n")
+        f.write("CHECK_DEADLOCK FALSE\n")
+    rc, text = tlc_raw("MC_%s.tla" % name, cfgp, os.path.join(OUT, "meta", "mc_" + tag),
+                       workers=workers or min(NPROC, 8), xmx=xmx, timeout=timeout, env=env)
     m = RE_STATES.search(text)
     if not m:
         raise ToolError("TLC model %s produced no state count:\n%s" % (name, text[-3000:]))
     objs = parse_json_prints(text)
     ok = "No error has been found" in text
     violated = re.findall(r"Invariant (\S+) is violated", text) + re.findall(r"property (\S+) was violated", text)
+    if not ok and not violated:
+        raise ToolError("TLC model %s failed:\n%s" % (name, "\n".join(l for l in text.splitlines() if not l.startswith('"{'))[-3000:]))
     cov = {}
     for mm in re.finditer(r"<(\w+) line \d+, col \d+ to line \d+, col \d+ of module (\w+)>: (\d+):(\d+)", text):
         cov[mm.group(1)] = cov.get(mm.group(1), 0) + int(mm.group(4))
-    return {"name": name, "ok": ok, "violated": violated, "states": int(m.group(2)),
-            "transitions": max(int(m.group(1)) - 1, 0), "objs": objs, "coverage": cov, "text": text}
+    return {"name": tag, "ok": ok, "violated": violated, "states": int(m.group(2)),
+            "transitions": max(int(m.group(1)) - 1, 0), "objs": objs, "coverage": cov, "constants": constants or {}}
 
 
 # ----------------------------------------------------------------------------------------------
@@ -193,13 +205,18 @@ def gen_traces(driver, tier, seed, tag, shards=None):
             cmd = [GV, "gen-front", "--kind", "py-merge", "--tier", tier, "--seed", str(seed), "--out", d, "--shards", str(shards)]
         if kind.startswith("replay="):
             planf = kind.split("=", 1)[1]
-            entry = json.loads(open(planf).read().splitlines()[0])
-            if entry.get("kind") == "hist-py":
+            entries = [json.loads(x) for x in open(planf).read().splitlines() if x.strip()]
+            if any(e.get("kind") == "hist-py" for e in entries):
+                # (re-)execute the Python histories in CPython; results travel with the plan
+                pys = [e for e in entries if e.get("kind") == "hist-py"]
                 scen, resf = os.path.join(d, "one_scen.json"), os.path.join(d, "one_res.json")
-                json.dump([entry["plan"]], open(scen, "w"))
+                json.dump([e["plan"] for e in pys], open(scen, "w"))
                 run_py_driver(scen, resf)
-                entry["results"] = json.load(open(resf))[0]
-                open(planf, "w").write(json.dumps(entry) + "\n")
+                for e, r in zip(pys, json.load(open(resf))):
+                    e["results"] = r
+                with open(planf, "w") as f:
+                    for e in entries:
+                        f.write(json.dumps(e) + "\n")
             cmd = [GV, "gen-front", "--kind", "replay", "--plan", kind.split("=", 1)[1], "--out", d, "--shards", "1",
                    "--cli-bin", build_cli()]
         sh(cmd, timeout=3000)
